@@ -56,6 +56,72 @@ Proof.
   - intros ->. rewrite H2. destruct (cut_time (rs_cut rs)); lia.
 Qed.
 
+(* lease_def without the "no provisional entries" hypothesis: whatever lookupV4Nss parked under the key
+   while it resolved glueless names, the final store replaces it — unless the inherited deadline has
+   already passed on the cache's clock, in which case what is left is a provisional entry (or the old
+   one), and every provisional entry ends within the deadline and within a minute of its own store *)
+Definition miss_with_provisional (st : state) (i : N) (r : referral) (rs : rstate) : Prop :=
+  st_rs st i = Some rs /\
+  valid_referral (r_coherent r) (r_zone r) (rs_zone rs) (rs_q rs) = true /\
+  r_valid r = true /\ r_pdet r = false /\
+  dc_get (st_dc st) (r_get r) (r_zone r) = None /\
+  r_abort r = false /\ r_reach r = true /\ r_anchor r = true.
+
+Lemma provisional_cases_cap : forall ps c z srv lin cd k d,
+  provisional c z srv lin cd ps k = Some d ->
+  c k = Some d \/ (k = z /\ d_exp d <= cd /\ (exists tn tc, In (tn, tc) ps /\ d_exp d <= tn + provisional_cap /\ tc < d_exp d)).
+Proof.
+  induction ps as [|[tn tc] ps IH]; intros c z srv lin cd k d H; cbn in H; [left; assumption|].
+  apply IH in H as [H|(-> & H1 & tn' & tc' & Hin & H2 & H3)].
+  - apply dc_set_until_cases in H as [H|(-> & Hlt & ->)]; [left; assumption|].
+    right. split; [reflexivity|]. cbn.
+    destruct (Z.ltb_spec cd (tn + provisional_cap)); (split; [lia|]); exists tn, tc; (split; [left; reflexivity|]);
+      pose proof max_ttl_pos; cbn in Hlt; destruct (Z.ltb_spec cd (tn + provisional_cap)); split; lia.
+  - right. split; [reflexivity|]. split; [exact H1|]. exists tn', tc'. split; [right; exact Hin|]. split; assumption.
+Qed.
+
+Lemma lease_def_general : forall fx st i r rs, miss_with_provisional st i r rs ->
+  let cd := child_deadline fx rs r in
+  let lin := mk_lrec (r_zone r) (r_obs r) (lease_ttl r) cd :: rs_lin rs in
+  st_dc (process_delegation fx st i r) (r_zone r) =
+    (if cd <=? r_store r then provisional (st_dc st) (r_zone r) (r_srv r) lin cd (r_prov r) (r_zone r)
+     else Some (mk_deleg (Z.min cd (r_store r + max_ttl)) (r_srv r) lin)).
+Proof.
+  intros fx st i r rs (Hrs & Hv & Hval & Hpd & Hg & Hab & Hre & Han) cd lin.
+  unfold process_delegation. rewrite Hrs, Hv, Hval. cbn [negb]. rewrite Hpd.
+  rewrite note_dc. rewrite Hg. rewrite Hab, Hre, Han. cbn [orb negb].
+  fold (child_deadline fx rs r). fold cd. cbn [st_dc]. rewrite dc_set_until_same. reflexivity.
+Qed.
+
+(* a referral that arrives while another resolution has already stored the delegation (the cached branch):
+   nothing is written, the descent continues with the cached servers and with the SHORTER of the cached
+   lease and the deadline of the referral just observed, and the request tree is bounded by it *)
+Lemma cached_branch_lemma : forall fx st i r rs cached,
+  st_rs st i = Some rs ->
+  valid_referral (r_coherent r) (r_zone r) (rs_zone rs) (rs_q rs) = true ->
+  r_valid r = true -> r_pdet r = false ->
+  dc_get (st_dc st) (r_get r) (r_zone r) = Some cached ->
+  let st' := process_delegation fx st i r in
+  st_dc st' = st_dc st /\
+  exists rs', st_rs st' i = Some rs' /\ rs_zone rs' = r_zone r /\ rs_srv rs' = d_srv cached /\
+              cut_time (rs_cut rs') = Some (Z.min (child_deadline fx rs r) (d_exp cached)) /\
+              cut_le (mt_cut (st_meta st' (rs_tree rs))) (Z.min (child_deadline fx rs r) (d_exp cached)).
+Proof.
+  intros fx st i r rs cached Hrs Hv Hval Hpd Hg st'. unfold st', process_delegation.
+  rewrite Hrs, Hv, Hval. cbn [negb]. rewrite Hpd. rewrite note_dc, Hg.
+  destruct (child_cut_some fx rs r) as [kc Hcc]. rewrite Hcc.
+  split; [reflexivity|]. eexists. cbn [st_rs]. unfold upd_rs at 1. rewrite N.eqb_refl.
+  split; [reflexivity|]. cbn [rs_zone rs_srv rs_cut]. split; [reflexivity|]. split; [reflexivity|].
+  assert (Hm : cut_time (min_cut (Some (child_deadline fx rs r, kc)) (Some (d_exp cached, r_zone r))) =
+               Some (Z.min (child_deadline fx rs r) (d_exp cached))).
+  { rewrite min_cut_time. reflexivity. }
+  split; [exact Hm|].
+  cbn [st_meta]. rewrite note_meta_same. cbn [mt_cut].
+  apply bound_cut_le_r.
+  destruct (min_cut (Some (child_deadline fx rs r, kc)) (Some (d_exp cached, r_zone r))) as [[t k]|]; cbn in *; [|discriminate].
+  inversion Hm; subst. lia.
+Qed.
+
 Lemma lease_ceiling_code : forall st i r rs d, plain_miss st i r rs ->
   st_dc (process_delegation code_fx st i r) (r_zone r) = Some d -> st_dc st (r_zone r) <> Some d ->
   d_exp d <= r_obs r + max_ttl.
@@ -225,4 +291,18 @@ Example ex_not_extended :
   option_map d_exp (st_dc st0 [1%N]) = Some 4000000000 /\
   option_map d_exp (st_dc st [1%N]) = Some 4000000000 /\
   map ae_end (st_ans st) = [4000000000].
+Proof. vm_compute. repeat split; reflexivity. Qed.
+
+(* the hypothesis of follows_parent_after_lease ("everything cached at or below z was learned through l")
+   is necessary, and rightly so: once the parent side has issued a NEWER referral for z, the resolver keeps
+   following that one although the old lease has run out *)
+Example ex_newer_referral_is_followed :
+  let s := 1000000000 in
+  let st := run code_fx [ASeed 0 0 [1;9]%N false 0;
+                         ARefer 0 (mk_ref [1%N] 1 true 4 None true 0 false 0 [] false true true 0);
+                         ASeed 1 1 [1;9]%N false (10 * s);
+                         ARefer 1 (mk_ref [1%N] 2 true 100 None true (10 * s) false (10 * s) [] false true true (10 * s))] st_init in
+  m_zone (search_cache (st_dc st) (20 * s) [1;9]%N false) = [1%N] /\
+  m_srv (search_cache (st_dc st) (20 * s) [1;9]%N false) = 2%N /\
+  option_map d_exp (st_dc st [1%N]) = Some (110 * s).
 Proof. vm_compute. repeat split; reflexivity. Qed.
